@@ -82,6 +82,38 @@ def make_dec(S, shape):
     return dec
 
 
+def make_pair(S, shape):
+    """Two independent messages of the same class in one process: the second decode/encode must not see state
+    left behind by the first (class-level or default-argument state shared between instances), and must not
+    disturb the first message."""
+    L = S.blen(shape)
+
+    def pair(b1: bytes, b2: bytes) -> bool:
+        assume(len(b1) == L)
+        assume(len(b2) == L)
+        for c in S.wf(b1, shape) + S.wf(b2, shape):
+            assume(c)
+        m1 = _decoder(S.dir).decode(bytes([S.fc]) + b1)
+        m2 = _decoder(S.dir).decode(bytes([S.fc]) + b2)
+        if m1 is None or m2 is None or m1 is m2:
+            return False
+        if not fields_equal(S.get(m2, shape), S.fields(b2, shape)):
+            explain("second decoded message differs from its wire bytes")
+            return False
+        if not fields_equal(S.get(m1, shape), S.fields(b1, shape)):
+            explain("first decoded message was disturbed by the second decode")
+            return False
+        # and the other direction: two constructed messages encode independently
+        for c in S.wf_enc(b1, shape) + S.wf_enc(b2, shape):
+            assume(c)
+        e1 = S.build(S.fields(b1, shape), shape)
+        e2 = S.build(S.fields(b2, shape), shape)
+        w1 = e1.encode()
+        w2 = e2.encode()
+        return same(w2, b2, "second encoded message") and same(w1, b1, "first encoded message") and same(e1.encode(), b1, "first message re-encoded")
+    return pair
+
+
 def make_exc(fc):
     def exc(code: int) -> bool:
         from pymodbus.pdu import ExceptionResponse
@@ -135,6 +167,16 @@ def obligations(tier):
                            whole_finding=kf("enc", S, shape)))
             out.append(Obl("dec." + key, make_dec(S, shape), bounds=bounds, timeout=T, contracts=contracts, lemmas=lem,
                            whole_finding=kf("dec", S, shape)))
+    for S in pdu.all_specs():
+        shapes = S.shapes(tier)
+        shape = shapes[-1] if tier == "quick" else shapes[min(2, len(shapes) - 1)]
+        if S.blen(shape) == 0:
+            continue
+        contracts = ("bits",) if needs_bits(S) else ()
+        wf = kf("dec", S, shape) or kf("enc", S, shape)
+        out.append(Obl("pair." + S.key(shape), make_pair(S, shape), timeout=T, contracts=contracts,
+                       lemmas=("K3",) if contracts else (), whole_finding=wf,
+                       bounds="two independent %s PDUs of shape %s decoded / encoded one after the other in one process, all body bytes symbolic" % (S.dir, shape)))
     for fc in pdu.SUPPORTED_FCS:
         out.append(Obl("exc.fc%d" % fc, make_exc(fc), bounds="function code %d, all 256 exception codes" % fc, timeout=T))
     for S in pdu.all_specs():
